@@ -683,6 +683,7 @@ func first(a, _ []byte) []byte { return a }
 
 //@ func (*{unsigned,signed,float,compound}SortedTree[K,V]).Delete
 //@   opt kind $KIND
+//@   pathkey ret
 //@   opt casts on
 //@   opt extent on
 //@   let rootTag0 = t.root.tag
